@@ -286,6 +286,40 @@ theorem equivariant_learner_agrees {α ι γ : Type} [DecidableEq α] (L : Learn
     have := congrArg (List.map (List.filterMap id)) b
     simpa [List.map_map, List.filterMap_map, Function.comp_def] using this
 
+/-! ### the tie to the functions the model transcribes -/
+
+/-- the functions the hand-written model transcribes have, in the current source, the control skeleton (tests, loop
+headers, kinds of statements and the names they bind) they had when the model was written and validated: no branch,
+loop, early exit or rebinding has been added that the model does not describe -/
+theorem modelled_functions_have_the_transcribed_shape :
+    MlVerif.Gen.C13.shapeFctFit =
+      "if(callable(self.fct)){self.fct_=;self.fct_inv_=}else{opts=;(self.fct_,self.fct_inv_)=};return" ∧
+    MlVerif.Gen.C13.shapeFctTransform =
+      "if(y is None){return};return" ∧
+    MlVerif.Gen.C13.shapeFctInv =
+      "if(isinstance(self.fct_inv_, str)){res=}else{res=};return" ∧
+    MlVerif.Gen.C13.shapePermFit =
+      "assert;num=;perm=;for(u in y.ravel()){if(num and numpy.isnan(u)){continue};if(u in perm){continue};perm[]=};lin=;if(self.random_state is None){lin=}else{rs=;lin=};perm_keys=;for(u in perm_keys){perm[]=};self.permutation_=;if(hasattr(self, 'knn_')){del self.knn_};if(hasattr(self, 'knn_perm_')){del self.knn_perm_};return" ∧
+    MlVerif.Gen.C13.shapePermTransform =
+      "if(y is None){return};call _check_is_fitted;if(len(y.shape) == 1 or y.dtype in (numpy.str_, numpy.int32, numpy.int64)){yp=;num=;res=;for(i in range(len(yp))){if(num and numpy.isnan(yp[i])){call append;continue};if(yp[i] not in self.permutation_){if(self.closest){cl=}else{raise}}else{cl=};call append};if(len(res) > 0){yp=};return}else{assert;cl=;call sort;new_perm=;for((cl,current) in cl){new_perm[]=};yp=;for(i in range(y.shape[1])){yp[]=};return}" ∧
+    MlVerif.Gen.C13.shapePermInv =
+      "call _check_is_fitted;res=;res.permutation_=;return" ∧
+    MlVerif.Gen.C13.shapeRegFit =
+      "self.transformer_=;call fit;(X_trans,y_trans)=;if(self.regressor is None){self.regressor_=}else{self.regressor_=};if(sample_weight is None){call fit}else{call fit};return" ∧
+    MlVerif.Gen.C13.shapeRegPredict =
+      "if(not hasattr(self, 'regressor_')){raise};(X_trans,_)=;pred=;inv=;(_,pred_inv)=;return" ∧
+    MlVerif.Gen.C13.shapeClfFit =
+      "self.transformer_=;call fit;(X_trans,y_trans)=;if(self.classifier is None){self.classifier_=}else{self.classifier_=};if(sample_weight is None){call fit}else{call fit};return" ∧
+    MlVerif.Gen.C13.shapeClfApply =
+      "call _check_is_fitted;assert;meth=;(X_trans,_)=;pred=;inv=;(_,pred_inv)=;return" ∧
+    MlVerif.Gen.C13.shapeClfClasses =
+      "call _check_is_fitted;inv=;(_,pred_inv)=;return" ∧
+    MlVerif.Gen.C13.shapeClfPredict =
+      "return" ∧
+    MlVerif.Gen.C13.shapeClfPredictProba =
+      "return" :=
+  ⟨rfl, rfl, rfl, rfl, rfl, rfl, rfl, rfl, rfl, rfl, rfl, rfl, rfl⟩
+
 /-! ### non-vacuity: concrete instances satisfying the hypotheses -/
 
 -- the hypothesis on the label order is satisfiable: `≤` on integers
